@@ -3,6 +3,7 @@ NEXT Next
 INVARIANT EmitCase
 CHECK_DEADLOCK FALSE
 CONSTANTS
+  LazySchedules = {"each", "batch", "glue_next", "glue_prev", "glue_both"}
   N = 4
   PartialUpTo = 2
   Schedules = {"each", "batch", "glue_next", "glue_prev", "glue_both"}
